@@ -579,6 +579,27 @@ func main() {
 				}
 			}
 			txt, _ := codec.BytesToLisk32(addr)
+			// every single-byte substitution at every position (prefix included) and every length change by one: whatever
+			// text is accepted must be the text of the bytes it converts to (text -> bytes -> text without loss)
+			alts := []string{txt[1:], txt[:len(txt)-1], txt + "z", "l" + txt, txt[:3] + "z" + txt[3:]}
+			for pos := 0; pos < len(txt); pos++ {
+				for x := 0; x < 256; x++ {
+					if byte(x) != txt[pos] {
+						alts = append(alts, txt[:pos]+string([]byte{byte(x)})+txt[pos+1:])
+					}
+				}
+			}
+			for _, m := range alts {
+				evals++
+				nontrivial++
+				b, err := codec.Lisk32ToBytes(m)
+				if err != nil {
+					continue
+				}
+				if back, err := codec.BytesToLisk32(b); err != nil || back != m {
+					viol("lisk32-text-round-trip-lossy", fmt.Sprintf("Lisk32 text %q is accepted as %x, whose text is %q (%v)", m, b, back, err), caseT{Type: "Lisk32", Value: m})
+				}
+			}
 			for pos := 3; pos < len(txt); pos++ {
 				for _, ch := range alphabet {
 					if byte(ch) == txt[pos] {
@@ -596,7 +617,7 @@ func main() {
 	}
 	r.Set("evaluations", evals)
 	r.Set("distinct_nontrivial", nontrivial)
-	r.Set("rule", fmt.Sprintf("(1) %d codec types x (3 uniform bases + every single-field value of the per-kind domains + every pair for types with <=5 fields): encode, decode lenient and strict, compare normalised, re-encode; (2) Transaction, Block, BlockAsset, EventPostSingleCommits: every single-byte substitution, deletion, insertion (4 values), truncation, trailing bytes and overlong varint of every seed, and every byte string of length <= %d through the strict constructors: accepted => re-encoding equals the input and the transaction ID is the SHA-256 of the input; (3) store/load/re-encode ID stability on a real DataAccess; (4) 8 addresses x 20 positions x 256 byte values round trip, every single-character substitution of the text rejected. non-trivial = non-empty encodings, seeds, stored transactions, altered texts", len(names), maxLen))
+	r.Set("rule", fmt.Sprintf("(1) %d codec types x (3 uniform bases + every single-field value of the per-kind domains + every pair for types with <=5 fields): encode, decode lenient and strict, compare normalised, re-encode; (2) Transaction, Block, BlockAsset, EventPostSingleCommits: every single-byte substitution, deletion, insertion (4 values), truncation, trailing bytes and overlong varint of every seed, and every byte string of length <= %d through the strict constructors: accepted => re-encoding equals the input and the transaction ID is the SHA-256 of the input; (3) store/load/re-encode ID stability on a real DataAccess; (4) 8 addresses x 20 positions x 256 byte values round trip, every single-character substitution of the text rejected, every single-byte substitution at every position of the text (prefix included) and every length change by one: accepted => the text is the text of its bytes. non-trivial = non-empty encodings, seeds, stored transactions, altered texts", len(names), maxLen))
 	r.Sample(caseT{Type: "blockchain.Transaction", Value: "Nonce=8 (2^64-1), others base", What: "round trip"})
 	r.Sample(caseT{Type: "Transaction", Bytes: fmt.Sprintf("%x", txSeed(1).Encode()[:24]), What: "every single-byte mutation of this seed"})
 	r.Finish()
